@@ -121,6 +121,7 @@ structure Interro where
   hasNode : Bool            -- is.node != nil
   hasVs : Bool              -- is.vs != nil
   hasErr : Bool             -- is.err != nil
+  errDataJson : Bool        -- the error's Data is accepted by json.Marshal as it is (no ECAL map, no non-finite number)
   stepOutStack : Option Nat -- length of is.stepOutStack if set
   atGlobal : Bool           -- is.vs is the global scope itself
   locals : List Str         -- names visible in is.vs below the global scope
@@ -155,11 +156,13 @@ def del {β : Type} (k : Nat) (l : List (Nat × β)) : List (Nat × β) := l.fil
 
 inductive Shape where
   | null | status | describe | lockstate
+  | unencodable   -- a result json.Marshal rejects
   deriving DecidableEq, Repr
 
 inductive Reply where
   | ok (sh : Shape)
   | error
+  | notJson
   | panic (site : String)
   | deadlock
   deriving DecidableEq, Repr
@@ -214,9 +217,10 @@ def locked {α : Type} (body : M α) : M α := fun s =>
 structure Guards where
   lockstateNil : Bool   -- `if ed.mutexLog != nil` / `if ed.threadpool != nil` in LockState
   stepOutLen : Bool     -- `len(stack) > 0` before `stack[:len(stack)-1]` in Continue
+  errDataConv : Bool    -- RuntimeErrorWithDetail.ToJSONObject converts Data into a JSON-marshalable object
   deriving DecidableEq, Repr
 
-def repaired : Guards := { lockstateNil := true, stepOutLen := true }
+def repaired : Guards := { lockstateNil := true, stepOutLen := true, errDataConv := true }
 
 /-- what the model does not decide itself -/
 structure Env where
@@ -277,13 +281,23 @@ def continueThread (g : Guards) (tid : Nat) (ct : ContType) : M Unit :=
               pure { is with cmd := .stepOut, stepOutStack := some so.length } : M Interro)
         modS fun s => { s with istates := put tid { is' with running := true } s.istates }
 
-def statusOf : M Out :=
+/-- json.Marshal accepts `is.err` (RuntimeErrorWithDetail.MarshalJSON) -/
+def errEncodable (g : Guards) (is : Interro) : Bool := g.errDataConv || !is.hasErr || is.errDataJson
+
+def threadErrEncodable (g : Guards) (s : DbgState) (tid : Nat) : Bool :=
+  match s.istates.lookup tid with
+  | some is => errEncodable g is
+  | none => true
+
+def statusOf (g : Guards) : M Out :=
   locked do
     let s ← getS
     -- prettyPrintCallStack(v) for every call stack: s.Token.Lsource of every entry
     deref (s.stacks.all fun p => p.2.all fun f => f.nonNil && f.hasToken)
       "Status: prettyPrintCallStack: s.Token.Lsource"
-    pure (.status, false)
+    -- s["error"] = is.err for every thread with a call stack and an interrogation state
+    if s.stacks.all fun p => threadErrEncodable g s p.1
+    then pure (.status, false) else pure (.unencodable, false)
 
 def lockState (g : Guards) : M Out := do
   let s ← getS
@@ -296,7 +310,7 @@ def lockState (g : Guards) : M Out := do
     deref s.threadPoolSet "LockState: ed.threadpool.State()"
     pure (.lockstate, false)
 
-def describeThread (tid : Nat) : M Out :=
+def describeThread (g : Guards) (tid : Nat) : M Out :=
   locked do
     let s ← getS
     match s.stacks.lookup tid, s.istates.lookup tid with
@@ -306,7 +320,7 @@ def describeThread (tid : Nat) : M Out :=
       (if is.running then pure () else do
         deref is.hasNode "Describe: is.node.ToJSONObject()"
         deref is.hasVs "Describe: buildVsSnapshot: vs.Parent()")
-      pure (.describe, false)
+      if errEncodable g is then pure (.describe, false) else pure (.unencodable, false)
     | _, _ => pure (.null, false)   -- nil map: encodes as null
 
 /-- names a suspended thread sees -/
@@ -448,13 +462,13 @@ def runCont (g : Guards) (args : List Str) : M Out :=
       else if lowerIs a1 "stepout" then do continueThread g tid .stepOut; pure okNull
       else pure err
 
-def runDescribe (args : List Str) : M Out :=
+def runDescribe (g : Guards) (args : List Str) : M Out :=
   if args.length ≠ 1 then pure err
   else do
     let a0 ← idx args 0 "describe: args[0]"
     match assertNumParam a0 with
     | none => pure err
-    | some tid => describeThread tid
+    | some tid => describeThread g tid
 
 def runExtract (args : List Str) : M Out :=
   if args.length ≠ 3 then pure err
@@ -494,8 +508,8 @@ def Cmd.run (g : Guards) (env : Env) : Cmd → List Str → M Out
   | .rmbreak, args => runRmBreak args
   | .breakonstart, args => runBreakOnStart args
   | .cont, args => runCont g args
-  | .describe, args => runDescribe args
-  | .status, _ => statusOf
+  | .describe, args => runDescribe g args
+  | .status, _ => statusOf g
   | .extract, args => runExtract args
   | .inject, args => runInject env args
   | .lockstate, _ => lockState g
@@ -514,7 +528,7 @@ def handleInput (g : Guards) (env : Env) (input : Str) : M Out :=
     | none => pure err
   else pure okNull
 
-def Out.reply (o : Out) : Reply := if o.2 then .error else .ok o.1
+def Out.reply (o : Out) : Reply := if o.2 then .error else if o.1 = .unencodable then .notJson else .ok o.1
 
 /-- one command line: successor state and reply class -/
 def handleG (g : Guards) (env : Env) (s : DbgState) (line : Str) : DbgState × Reply :=
@@ -531,8 +545,8 @@ def handle (env : Env) (s : DbgState) (line : Str) : DbgState × Reply := handle
 /-- where a thread is after running for a while -/
 inductive Watch where
   | free                                                    -- no interrogation state
-  | running (cmd : ICmd)                                    -- interrogated, running
-  | suspended (hasErr atGlobal : Bool) (locals : List Str)  -- waiting in waitForContinue
+  | running (cmd : ICmd) (hasErr errDataJson : Bool)        -- interrogated, running
+  | suspended (hasErr errDataJson atGlobal : Bool) (locals : List Str)  -- waiting in waitForContinue
   deriving DecidableEq, Repr
 
 inductive Event where
@@ -572,15 +586,15 @@ def applyEvent (s : DbgState) : Event → Option DbgState
       let s1 := { s with stacks := put tid (frames depth) s.stacks }
       match w with
       | .free => some { s1 with istates := del tid s.istates }
-      | .running cmd =>
+      | .running cmd hasErr errDataJson =>
         match s.istates.lookup tid with
-        | some is => some { s1 with istates := put tid { is with cmd := cmd } s.istates }
+        | some is => some { s1 with istates := put tid { is with cmd := cmd, hasErr := hasErr, errDataJson := errDataJson } s.istates }
         | none => none
-      | .suspended hasErr atGlobal locals =>
+      | .suspended hasErr errDataJson atGlobal locals =>
         some { s1 with
           breakOnStart := if (s.istates.lookup tid).isNone then false else s.breakOnStart
           istates := put tid { running := false, cmd := .stop, hasNode := true, hasVs := true,
-                               hasErr := hasErr, stepOutStack := none, atGlobal := atGlobal,
+                               hasErr := hasErr, errDataJson := errDataJson, stepOutStack := none, atGlobal := atGlobal,
                                locals := locals } s.istates }
   | .finish tid =>
     if (s.stacks.lookup tid).isNone || isSuspended s tid then none
